@@ -66,6 +66,10 @@ void myth_verif_vclock_disable(void);
 void myth_verif_vclock_set_step(long step_ns);
 void myth_verif_vclock_peek(struct timespec * ts);  /* no advance */
 uint64_t myth_verif_vclock_reads(void);
+/* DAG Recorder time stamps: 0 = the real counter, otherwise every read returns v */
+void myth_verif_dr_vclock_set(unsigned long long v);
+unsigned long long myth_verif_dr_vclock_reads(void);
+unsigned long long myth_verif_dr_clock(unsigned long long real_tsc);
 
 /* worker rank of the calling OS thread as seen by the hooks (-1 if none) */
 int myth_verif_my_rank(void);
